@@ -146,7 +146,7 @@ def fmt_sparse(cid, solver, c):
     L.append(" ".join(hexd(float(v)) for v in c["b"]))
     return "\n".join(L) + "\n"
 
-def run_impl(exe, blocks, timeout=10, restarts=None):
+def run_impl(exe, blocks, timeout=3, restarts=None):
     """blocks: list of (id, text). Returns {id: (x list | None, verbose lines)}, hangs (ids given up on).
     The harness is watched for progress: when it prints nothing for `timeout` seconds it is killed and restarted behind
     the last finished case (the unchanged walk_descents can lose a wake-up — C12/D7 — which is not C11's subject);
@@ -221,14 +221,17 @@ def impl_trace(lines):
 
 # ------------------------------------------------------------------------------------------------ model
 def model_flag():
-    txt = open(os.path.join(COQDIR, "theories", "Generated_nnls.v")).read()
+    try:
+        txt = open(os.path.join(COQDIR, "theories", "Generated_nnls.v")).read()
+    except OSError:
+        return True, 120, 5
     m = re.search(r"block3_exit_requires_full_step : bool := (true|false)", txt)
     mi = re.search(r"block3_max_iter : nat := (\d+)", txt)
     tp = re.search(r"block3_tol_pow10 : Z := (\d+)", txt)
     return m.group(1) == "true", int(mi.group(1)), int(tp.group(1))
 
 def run_model(exe, lines, timeout=600):
-    if not lines:
+    if not lines or exe is None:
         return {}
     p = _common.run([exe], input="\n".join(lines) + "\n", timeout=timeout)
     out = {}
@@ -471,7 +474,7 @@ def check_sparse(rng, exe, out, stats, count, nmax):
             if s == "lh_ne" and c["n"] > 120:
                 continue
             blocks.append(("%d.%s" % (k, s), fmt_sparse("%d.%s" % (k, s), s, c)))
-    res, hangs = run_impl(exe, blocks, timeout=60, restarts=stats["restarts"])
+    res, hangs = run_impl(exe, blocks, timeout=30, restarts=stats["restarts"])
     for cid, why in hangs:
         stats["hangs"].append(("sparse." + cid, why))
     for k, c in enumerate(cases):
@@ -514,7 +517,11 @@ def run(info, out):
     tier, seed = info["tier"], info["seed"]
     rng = Rng(seed)
     exe = build_harness("C11_harness", ["C11_harness.c"], repo_srcs=[], fitter=True)
-    mexe = build_extracted("nnls")
+    try:
+        mexe = build_extracted("nnls")
+    except BuildError as e:
+        mexe = None
+        out.notes.append("extracted model does not build (proof/translator broken?): model comparison skipped: " + str(e)[-300:])
     flags = model_flag()
     stats = {"evaluations": 0, "distinct": set(), "hist": {}, "model_runs": 0, "spec_runs": 0, "solver_runs": {}, "fails": {}, "hangs": [],
              "traces_validated": 0, "samples": [], "model_exit_not_kkt": 0, "model_abnormal_exits": {}, "block3_maxiter_exits": 0,
@@ -534,7 +541,8 @@ def run(info, out):
                         x, lines = res["r." + s]
                         print("replay: %-7s x = %s  oracle: %s" % (s, x, [f[1] for f in oracle(s, c, ex, x)[0]] or "ok"))
                         if s == "block3":
-                            print("replay: block3 trace", impl_trace(lines)[0], "| model trace", mirror_events(ex["mir"]), "| model exit", ex["mir"]["exit"])
+                            it = impl_trace(lines)[0]
+                            print("replay: block3 trace (%d events, last 14)" % len(it), it[-14:], "| model trace", mirror_events(ex["mir"])[-14:], "| model exit", ex["mir"]["exit"])
             elif j.get("sparse"):
                 sp = j["sparse"]
                 c = {"kind": "sparse", "n": sp["n"], "T": {(i, jj): v for i, jj, v in sp["T"]}, "b": sp["b"]}
@@ -543,7 +551,7 @@ def run(info, out):
             corpus = load_corpus()
             check_cases(corpus, exe, mexe, out, stats, flags, pool)
             stats["corpus_cases"] = len(corpus)
-            vol = 3000 if tier == "quick" else 40000
+            vol = 2000 if tier == "quick" else 40000
             if not info["proof_ok"]:
                 vol *= 10 if tier == "quick" else 3
             kinds = ["random"] * 5 + ["degenerate"] * 2 + ["ties"] * 1 + ["scaled"] * 2
